@@ -191,7 +191,22 @@ func isBadgerTxnMethod(f *types.Func, names ...string) bool {
 // badgerOps extracts the state accesses of a badger-driver method (including its closures).
 func badgerOps(p *an.Prog, m *ssa.Function) []storeOp {
 	var out []storeOp
+	// (function scanned, function and instruction the op is attributed to): accesses made by a helper that is handed
+	// the transaction (nodeBalanceKey(txn, id), ...) count as accesses of the call site in the method's own closure
+	type scan struct {
+		fn     *ssa.Function
+		attrFn *ssa.Function
+		attrIn ssa.Instruction
+		depth  int
+	}
+	var work []scan
 	for _, fn := range an.WithAnon(m) {
+		work = append(work, scan{fn, fn, nil, 0})
+	}
+	seenHelper := map[*ssa.Function]bool{}
+	for wi := 0; wi < len(work); wi++ {
+		sc := work[wi]
+		fn := sc.fn
 		for _, c := range an.Calls(fn, false) {
 			f := an.CallObj(c)
 			if f == nil {
@@ -199,8 +214,19 @@ func badgerOps(p *an.Prog, m *ssa.Function) []storeOp {
 			}
 			args := c.Common().Args
 			in := c.(ssa.Instruction)
+			opFn := sc.attrFn
+			if sc.attrIn != nil {
+				in = sc.attrIn
+			}
+			if h := c.Common().StaticCallee(); h != nil && sc.depth < 2 && isTxnHelper(p, h) && !seenHelper[h] {
+				seenHelper[h] = true
+				for _, hf := range an.WithAnon(h) {
+					work = append(work, scan{hf, opFn, in, sc.depth + 1})
+				}
+				continue
+			}
 			mk := func(k opKind, key, val ssa.Value, via string) {
-				op := storeOp{Kind: k, In: in, Fn: fn, Key: key, Val: val, Via: via}
+				op := storeOp{Kind: k, In: in, Fn: opFn, Key: key, Val: val, Via: via}
 				if key != nil {
 					op.Spaces = badgerKeySpaces(p, key)
 				}
@@ -221,11 +247,11 @@ func badgerOps(p *an.Prog, m *ssa.Function) []storeOp {
 			case an.IsFunc(f, pkgBadger, "loopItem") && len(args) == 4:
 				mk(opIter, args[1], args[2], "loopItem")
 			case an.IsFunc(f, pkgBadger, "getVersion"):
-				out = append(out, storeOp{Kind: opRead, Spaces: []string{"version"}, In: in, Fn: fn, Via: "getVersion"})
+				out = append(out, storeOp{Kind: opRead, Spaces: []string{"version"}, In: in, Fn: opFn, Via: "getVersion"})
 			case an.IsFunc(f, pkgBadger, "setVersion"):
-				out = append(out, storeOp{Kind: opWrite, Spaces: []string{"version"}, In: in, Fn: fn, Via: "setVersion"})
+				out = append(out, storeOp{Kind: opWrite, Spaces: []string{"version"}, In: in, Fn: opFn, Via: "setVersion"})
 			case an.IsFunc(f, pkgBadger, "checkVersion"):
-				out = append(out, storeOp{Kind: opRead, Spaces: []string{"version"}, In: in, Fn: fn, Via: "checkVersion"})
+				out = append(out, storeOp{Kind: opRead, Spaces: []string{"version"}, In: in, Fn: opFn, Via: "checkVersion"})
 			case isBadgerTxnMethod(f, "Get") && len(args) == 2:
 				mk(opRead, args[1], nil, "txn.Get")
 			case isBadgerTxnMethod(f, "Set") && len(args) == 3:
@@ -313,6 +339,14 @@ func txnRegions(p *an.Prog, m *ssa.Function) []txnRegion {
 				case *ssa.Function:
 					reg.Closure = x
 				}
+				// a method value (db.Update(m.step)) is a synthetic bound-method wrapper: the region is the method
+				if cl := reg.Closure; cl != nil && cl.Synthetic != "" {
+					for _, cc := range an.Calls(cl, false) {
+						if cal := cc.Common().StaticCallee(); cal != nil && p.InRepo(cal) && len(cal.Blocks) > 0 {
+							reg.Closure = cal
+						}
+					}
+				}
 			}
 			out = append(out, reg)
 		}
@@ -398,4 +432,27 @@ func returnClass(ret *ssa.Return) (string, ssa.Value) {
 		}
 	}
 	return "unknown", res
+}
+
+// isTxnHelper: an unexported function of the badger package (not one of the access primitives, not a driver method)
+// that receives the transaction.
+func isTxnHelper(p *an.Prog, h *ssa.Function) bool {
+	if h.Pkg == nil || h.Pkg.Pkg.Path() != pkgBadger || len(h.Blocks) == 0 || !p.InRepo(h) || p.IsTestFunc(h) {
+		return false
+	}
+	switch h.Name() {
+	case "getItem", "setItem", "setExpiringItem", "loopItem", "hasKey", "getVersion", "setVersion", "checkVersion":
+		return false
+	}
+	if h.Signature.Recv() != nil {
+		if n := namedOf(h.Signature.Recv().Type()); n != nil && n.Obj().Name() == "badgerStore" {
+			return false
+		}
+	}
+	for _, prm := range h.Params {
+		if n := namedOf(prm.Type()); n != nil && n.Obj().Name() == "Txn" {
+			return true
+		}
+	}
+	return false
 }
